@@ -2,7 +2,7 @@ import LabtechModel.Model.Store
 /-!
 `HIST ns=<0|1> ty=<type per tid> ca=<cache kind per type: n|p|o> deps=<d,d;d;…> fl=<0|1 per tid>
       np=<T:T',…> ops=<op/op/…>`
-op: `R<bust>:<g>:<req,…>` run_tasks · `U:<tids>` uncache_tasks · `I:<tid>` is_cached · `C:<types>` cached_tasks.
+op: `R<bust>:<g>:<req,…>[:<fail,…>]` run_tasks (tasks in `fail` raise in this run) · `U:<tids>` uncache_tasks · `I:<tid>` is_cached · `C:<types>` cached_tasks.
 Output: one segment per operation joined by ` | `; every segment ends with the key directories
 present afterwards (`K=` tids, sorted).
 -/
@@ -27,8 +27,10 @@ def parseKind : String → Option CacheKind
 
 def parseOp (s : String) : Option Op :=
   match s.splitOn ":" with
-  | ["R0", g, req] => do pure (.run false (← g.toNat?) (← natList req))
-  | ["R1", g, req] => do pure (.run true (← g.toNat?) (← natList req))
+  | ["R0", g, req] => do pure (.run false (← g.toNat?) (← natList req) [])
+  | ["R1", g, req] => do pure (.run true (← g.toNat?) (← natList req) [])
+  | ["R0", g, req, fl] => do pure (.run false (← g.toNat?) (← natList req) (← natList fl))
+  | ["R1", g, req, fl] => do pure (.run true (← g.toNat?) (← natList req) (← natList fl))
   | ["U", ts] => do pure (.uncache (← natList ts))
   | ["I", t] => do pure (.isCached (← t.toNat?))
   | ["C", ts] => do pure (.cachedTasks (← natList ts))
@@ -42,7 +44,7 @@ def parsePairs (s : String) : Option (List (Nat × Nat)) :=
 
 def stdValue (t g : Nat) (vs : List Val) : Val := 1000 * t + g + vs.foldl (· + ·) 0
 
-def showOut : Out → String
+def showOut (U : Universe) (d : Disk) : Out → String
   | .ran ret execd loaded =>
     let r := ",".intercalate (ret.map (fun p => s!"{p.1}:{p.2}"))
     let l := ",".intercalate ((loaded.toArray.qsort (fun a b => a.1 < b.1)).toList.map
@@ -50,7 +52,12 @@ def showOut : Out → String
     s!"ran ret={r} exec={showList (sortNat execd)} loaded={l}"
   | .unit => "unit"
   | .bool b => s!"bool {if b then 1 else 0}"
-  | .tasks ts => s!"tasks {showList (sortNat ts)}"
+  | .tasks ts =>
+    -- every listed task with the run stamp of the result_meta that cached_tasks attaches to it
+    let items := (sortNat ts).map (fun t => match cachedTaskMeta U d t with
+      | some (st, _) => s!"{t}:{st}"
+      | none => s!"{t}:-")
+    s!"tasks {",".intercalate items}"
 
 def keysOf (U : Universe) (d : Disk) : String :=
   if U.nullStorage then "" else showList (sortNat (d.map (fun p => p.2.task)))
@@ -59,7 +66,7 @@ def runHist (U : Universe) : Disk → List Op → List String
   | _, [] => []
   | d, op :: ops =>
     let (d', o) := opC U d op
-    s!"{showOut o} K={keysOf U d'}" :: runHist U d' ops
+    s!"{showOut U d' o} K={keysOf U d'}" :: runHist U d' ops
 
 def handle (parts : List String) : String :=
   let r : Option String := do
